@@ -1,11 +1,83 @@
-(* C05 - placeholder property file: theorems are added as the corresponding model layer is proved.
-   The decisive oracle today is the extracted specification machine (Spec/Tree.v, Spec/Abs.v, Spec/Wf.v). *)
+(* C05 - free-space accounting is exact and space is fully reclaimed.
+   Theorems over Model/Table.v for ANY FAT store satisfying the get/set laws (the byte-level FAT12/16/32 stores
+   are shown to satisfy them in Proofs/FatProofs.v).  [count_spec t 2 total] is the number of free entries
+   among the data clusters 2..total+1; [fi_inv] says the cached count (when present) equals it and the
+   next-free hint is >= 2. *)
 From Coq Require Import NArith List.
-From FatVerif Require Import Model.Base Spec.Image Proofs.ImageProofs.
+From FatVerif Require Import Model.Base Model.Table Proofs.TableProofs.
 Open Scope N_scope.
 
-Theorem C05_image_write_frame : forall bs im off o,
-  (o < off \/ off + N.of_nat (length bs) <= o) -> img_get (img_write im off bs) o = img_get im o.
-Proof. exact img_write_outside. Qed.
+Section C05.
+Variable T : Type.
+Variable get : T -> N -> res fatv.
+Variable set : T -> N -> fatv -> res T.
+Variable val : T -> N -> fatv.
+Variable okc : N -> Prop.
+Variable okv : fatv -> Prop.
+Hypothesis get_val : forall t c, okc c -> get t c = Ok (val t c).
+Hypothesis set_ok : forall t c v, okc c -> okv v ->
+  exists t', set t c v = Ok t' /\ val t' c = v /\ forall c', c' <> c -> val t' c' = val t c'.
+Hypothesis okv_free : okv Free.
+Hypothesis okv_eoc : okv Eoc.
 
-Print Assumptions C05_image_write_frame.
+Let count_spec := count_spec T val.
+Let fi_inv := fi_inv T val.
+Let chain := chain T val.
+
+(* the statistics call reports exactly the number of free table entries, cached or recomputed *)
+Theorem C05_stats_exact : forall t fi total,
+  fi_inv t fi total -> (forall x, 2 <= x < total + 2 -> okc x) ->
+  exists fi', fs_stats T get t fi total = Ok (fi', count_spec t 2 (N.to_nat total)) /\ fi_inv t fi' total.
+Proof. exact (fs_stats_exact T get val okc get_val). Qed.
+
+(* allocation: keeps the cached count exact (never underflows), leaves an in-range hint, hands out only a
+   free data cluster, and reports out-of-space only when no data cluster is free *)
+Theorem C05_alloc_accounting : forall t fi prev total,
+  fi_inv t fi total ->
+  (forall x, 2 <= x < total + 2 -> okc x) ->
+  (match prev with
+   | Some p => okc p /\ (forall n, 2 <= n < total + 2 -> okv (Data n)) /\ val t p <> Free
+   | None => True end) ->
+  match fs_alloc T get set t fi prev total with
+  | Ok (t', fi', c) => fi_inv t' fi' total /\ 2 <= c < total + 2 /\ val t c = Free /\
+                       (exists h, fi_next fi' = Some h /\ 2 <= h < total + 2)
+  | Err e => e = ENotEnoughSpace /\ forall x, 2 <= x < total + 2 -> val t x <> Free
+  | Panic => False
+  | OutOfFuel => False
+  end.
+Proof. exact (fs_alloc_inv T get set val okc okv get_val set_ok okv_eoc). Qed.
+
+(* removing a file gives back every cluster of its chain: each becomes free, nothing else changes, the count
+   of free entries and the cached count grow by exactly the chain length *)
+Theorem C05_remove_reclaims_all : forall t fi total c l fuel,
+  fi_inv t fi total -> chain t c l -> NoDup l ->
+  (forall x, In x l -> okc x /\ 2 <= x < total + 2 /\ val t x <> Free) -> (length l < fuel)%nat ->
+  exists t' fi', fs_free_chain T get set t fi c fuel = Ok (t', fi') /\ fi_inv t' fi' total /\
+    count_spec t' 2 (N.to_nat total) = count_spec t 2 (N.to_nat total) + N.of_nat (length l) /\
+    (forall x, In x l -> val t' x = Free) /\ (forall x, ~ In x l -> val t' x = val t x).
+Proof. exact (fs_free_chain_inv T get set val okc okv get_val set_ok okv_free). Qed.
+
+(* truncating: the cluster at the cut becomes the end of the chain, everything after it is given back *)
+Theorem C05_truncate_reclaims : forall t fi total c l fuel,
+  fi_inv t fi total -> chain t c (c :: l) -> NoDup (c :: l) ->
+  (forall x, In x (c :: l) -> okc x /\ 2 <= x < total + 2 /\ val t x <> Free) -> (length l < fuel)%nat ->
+  exists t' fi', fs_truncate_chain T get set t fi c fuel = Ok (t', fi') /\ fi_inv t' fi' total /\
+    val t' c = Eoc /\ (forall x, In x l -> val t' x = Free) /\ (forall x, ~ In x (c :: l) -> val t' x = val t x) /\
+    count_spec t' 2 (N.to_nat total) = count_spec t 2 (N.to_nat total) + N.of_nat (length l).
+Proof. exact (fs_truncate_chain_inv T get set val okc okv get_val set_ok okv_free okv_eoc). Qed.
+End C05.
+
+(* non-vacuity on the pure store: a 6-cluster table with a 3-cluster chain 2 -> 4 -> 3 *)
+Example C05_example :
+  let t : pfat := fun c => if c =? 2 then Data 4 else if c =? 4 then Data 3 else if c =? 3 then Eoc else Free in
+  let fi := {| fi_free := Some 3; fi_next := Some 5; fi_dirty := false |} in
+  match fs_free_chain pfat pget pset t fi 2 10 with
+  | Ok (t', fi') => fi_free fi' = Some 6 /\ t' 2 = Free /\ t' 3 = Free /\ t' 4 = Free
+  | _ => False
+  end.
+Proof. vm_compute. repeat split. Qed.
+
+Print Assumptions C05_stats_exact.
+Print Assumptions C05_alloc_accounting.
+Print Assumptions C05_remove_reclaims_all.
+Print Assumptions C05_truncate_reclaims.
